@@ -749,10 +749,18 @@ class RewriteRuleSet:
                     used_domains: set[str] = {node.domain for node in original_nodes}
                     # A subgraph (If/Loop body) carries no opset imports of its own: fall back to
                     # the model's imports for domains the parent does not declare.
-                    parent_opset_imports = {
-                        **model.graph.opset_imports,
-                        **graph_or_function.opset_imports,
-                    }
+                    if isinstance(graph_or_function, ir.Function):
+                        parent_opset_imports = {
+                            **model.graph.opset_imports,
+                            **graph_or_function.opset_imports,
+                        }
+                    else:
+                        # A (sub)graph inherits the model's imports; its own dict may hold
+                        # default versions recorded by _update_opset_imports.
+                        parent_opset_imports = {
+                            **graph_or_function.opset_imports,
+                            **model.graph.opset_imports,
+                        }
                     used_opset_imports = {
                         k: v for k, v in parent_opset_imports.items() if k in used_domains
                     }
